@@ -183,6 +183,7 @@ def verify_function(model, contract, timeout_ms=10000, body_override=None, extra
     ex = Executor(model)
     ex.fname = contract.qualname
     ex.contract = contract
+    ex.lenient = bool(getattr(contract, "lenient", False))
     st = State()
     env = {}
     for name, tystr in list(contract.params.items()) + list(contract.ghost.items()):
@@ -192,6 +193,8 @@ def verify_function(model, contract, timeout_ms=10000, body_override=None, extra
         if is_ref(ty) and not isinstance(ty, OptT):
             st.assume(v.term != NONE)
     for a in list(fdef.args.args) + list(fdef.args.kwonlyargs):
+        if a.arg == "cls" and a.arg in model.globals and a.arg not in env:
+            continue          # classmethod receiver bound to a class value by the model
         if a.arg not in env or a.arg in contract.ghost:
             raise Unsupported(f"{contract.qualname}: parameter {a.arg} has no type in the contract")
     st.env = env
@@ -276,7 +279,9 @@ def verify_function(model, contract, timeout_ms=10000, body_override=None, extra
                           group=f"{contract.qualname}:cover"))
     results.append(Result(f"{contract.qualname}:cover:some-path-feasible", "discharged" if reach else "open", "z3", 0.0, "cover",
                           group=f"{contract.qualname}:cover"))
-    info = {"qualname": contract.qualname, "source": f"{rel}:{qual}", "sha256_16": h, "lines": [fdef.lineno, fdef.end_lineno],
+    if getattr(ex, "havoced", None):
+        model.assumptions.append(f"{contract.qualname}: safety-only mode, havoc'ed calls: " + "; ".join(ex.havoced[:12]))
+    info = {"qualname": contract.qualname, "source": f"{rel}:{qual}", "sha256_16": h, "lines": [fdef.lineno, fdef.end_lineno], "havoced": getattr(ex, "havoced", [])[:20],
             "paths": len(outs), "return_paths": n_ret, "raise_paths": n_raise, "obligations": len(obs)}
     return results, info
 
